@@ -161,6 +161,9 @@ TIES = {
                         "BucketMeta.Size,BucketMeta.Encode,BucketMeta.GetCrc,IsExpired,DB.isFilterEntry,getNewKey,compare"]),
     "page": dict(dir=".", gen="generated/GoPage.v", chain=["gosem/GoPageFacts.v"],
                  args=["-module", "GoPage", "-skipfiles", "verif_on.go,verif_dump.go", "-only", "pageEntries"]),
+    "scan": dict(dir=".", gen="generated/GoScan.v", chain=["gosem/GoScanFacts.v"], deps=["set"],
+                 args=["-module", "GoScan", "-skipfiles", "verif_on.go,verif_dump.go", "-only",
+                       "processEntriesScanOnDisk,SortedEntryKeys,Tx.buildTempBucketMetaIdx"]),
     "tx": dict(dir=".", gen="generated/GoTx.v", chain=["gosem/GoTxFacts.v"], deps=["list", "set"],
                args=["-module", "GoTx", "-skipfiles", "verif_on.go,verif_dump.go",
                      "-imports", "github.com/xujiajun/nutsdb/ds/list=%s/generated/GoList.json,github.com/xujiajun/nutsdb/ds/set=%s/generated/GoSet.json" % (COQ, COQ),
@@ -170,12 +173,12 @@ TIES = {
                      "Tx.SUnionByOneBucket,Tx.SUnionByTwoBuckets"]),
 }
 # which ties a property depends on, and its code-level property file
-TIES_FOR = {"C05": ["list"], "C20": ["list"], "C06": ["set"], "C21": ["codec"], "C15": ["codec"], "C01": ["codec"], "C04": ["codec"],
-            "C12": ["tx"], "C13": ["tx"], "C07": ["zset"], "C03": ["page"]}
+TIES_FOR = {"C05": ["list"], "C20": ["list", "page"], "C06": ["set"], "C21": ["codec"], "C15": ["codec"], "C01": ["codec"], "C04": ["codec"],
+            "C12": ["tx"], "C13": ["tx"], "C07": ["zset"], "C03": ["page"], "C02": ["scan"]}
 CODE_PROPS = {"C05": "properties_code/C05_code.v", "C20": "properties_code/C05_code.v", "C06": "properties_code/C06_code.v",
               "C21": "properties_code/C21_code.v", "C15": "properties_code/C15_code.v", "C01": "properties_code/C01_code.v",
               "C04": "properties_code/C04_code.v", "C12": "properties_code/C13_code.v", "C13": "properties_code/C13_code.v",
-              "C07": "properties_code/C07_code.v", "C03": "properties_code/C03_code.v"}
+              "C07": "properties_code/C07_code.v", "C03": "properties_code/C03_code.v", "C02": "properties_code/C02_code.v"}
 
 
 def build_translator():
